@@ -1008,7 +1008,7 @@ class Variable(CanBehaveLikeAVariable[T]):
             self._update_domain_(self._domain_source_.domain)
 
     def _update_domain_(self, domain):
-        if domain:
+        if domain is not None:
             if isinstance(domain, HashedIterable):
                 self._domain_ = domain
                 return
